@@ -820,9 +820,22 @@ func (r *report) structuredMultiSig(t tier, emit func([]byte, [][]byte)) {
 				}
 				vars := []variant{{mat.msg[0], pubs}, {mat.msg[1], pubs}, {mat.msg[0][:31], pubs}}
 				if n >= 1 {
-					short := cloneStack(pubs)
-					short[n-1] = short[n-1][:31]
-					vars = append(vars, variant{mat.msg[0], short})
+					// a malformed key at EVERY position of the key list (the keys that match the
+					// signatures may all lie above it), in each malformed shape
+					for j := 0; j < n; j++ {
+						for shape := 0; shape < 3; shape++ {
+							bad := cloneStack(pubs)
+							switch shape {
+							case 0:
+								bad[j] = bad[j][:31]
+							case 1:
+								bad[j] = append(append([]byte{}, bad[j]...), 0)
+							case 2:
+								bad[j] = []byte{}
+							}
+							vars = append(vars, variant{mat.msg[0], bad})
+						}
+					}
 					if n >= 2 {
 						rev := cloneStack(pubs)
 						rev[0], rev[n-1] = rev[n-1], rev[0]
